@@ -1149,20 +1149,26 @@ def run(ctx):
     lap("probes")
 
     # non-vacuity of the trace specification: one corrupted field of an accepted trace must be rejected
-    if D.accepted_chunks:
-        eid, lines = D.accepted_chunks[0]
+    corrupted = None
+    for eid, lines in D.accepted_chunks:
         bad = list(lines)
         for i, l in enumerate(bad):
             ev = json.loads(l)
-            if ev["e"] == "Add" and ev["ret"] >= 0:
-                o = [x for x in ev["obs"] if x[1] == ev["ret"]][0]
-                o[3][0] = "AA" if o[3][0] != "AA" else "AE"      # what decoder_lookup_word said
+            mine = [x for x in ev.get("obs", []) if ev["e"] == "Add" and ev["ret"] >= 0 and x[1] == ev["ret"] and x[3]]
+            if mine:
+                mine[0][3][0] = "AA" if mine[0][3][0] != "AA" else "AE"      # what decoder_lookup_word said
                 bad[i] = json.dumps(ev, separators=(",", ":"))
+                corrupted = bad
                 break
-        a, f, _ = tracecheck.validate(SPEC, "DictTrace.tla", "DictTrace.cfg", [("corrupt", bad)], ctx.work)
+        if corrupted:
+            break
+    if corrupted:
+        a, f, _ = tracecheck.validate(SPEC, "DictTrace.tla", "DictTrace.cfg", [("corrupt", corrupted)], ctx.work)
         if not f:
             raise tlc.ModelError("DictTrace accepted a trace with a falsified lookup result")
         rep.notes["corrupted_trace_rejected_at_event"] = f[0].local_line - 1
+    elif not rep.violations:
+        raise tlc.ModelError("no accepted probe execution with an accepted addition: nothing was exercised")
 
     # 3. tours
     tcfg = [("case", "MC_tour_q_case.cfg", "0", False), ("nocase", "MC_tour_q_nocase.cfg", "1", False),
